@@ -485,6 +485,23 @@ func c09Judge(c *Ctx, cfg wcfg, in inputSpec, del int, res writeResult, sig stri
 		}
 		c.Violation(key, fmt.Sprintf("%s [%s, input %s %d bytes, %s]", b[1], cfg, in.name, len(in.data), delNames[del]), det())
 	}
+	// (a configured content size that is not the input's length is the caller's lie: the tool checks it)
+	if len(bad) == 0 && len(res.sink) <= 20<<20 && (cfg.size == 0 || cfg.size == uint64(len(in.data))) && (f.EmptyStored > 0 || prng.Hash(string(res.sink[:minInt(len(res.sink), 4096)]))%6 == 0) {
+		if refCLI() == "" {
+			c.Count("reference_cli_unavailable", 1)
+		} else {
+			out, msg, err := refCLIDecode(res.sink)
+			c.Count("frames_decoded_by_the_reference_cli", 1)
+			switch {
+			case err != nil:
+				c.Violation("reference-cli-rejects/"+sigFlags(cfg), fmt.Sprintf("the reference implementation's lz4 command rejects the Writer's output: %v %s [%s, input %s %d bytes, %s]", err, msg, cfg, in.name, len(in.data), delNames[del]), det())
+			case !bytes.Equal(out, in.data):
+				c.Violation("reference-cli-decodes-differently/"+sigFlags(cfg), fmt.Sprintf("the reference implementation's lz4 command decodes the Writer's output to %d bytes that differ from the %d input bytes [%s, input %s, %s]", len(out), len(in.data), cfg, in.name, delNames[del]), det())
+			default:
+				c.Count("reference_cli_agrees", 1)
+			}
+		}
+	}
 	stored, compressed := 0, 0
 	for _, b := range f.Blocks {
 		if b.Stored {
